@@ -14,7 +14,8 @@ import time
 
 
 def _reexec_if_needed():
-    want = {"PYTHONHASHSEED": "0", "OMP_NUM_THREADS": "1", "OPENBLAS_NUM_THREADS": "1", "MKL_NUM_THREADS": "1"}
+    # VERIF_HASHSEED: robustness experiments only (tools/run_all.py --hashseed): the verdicts must not depend on set order
+    want = {"PYTHONHASHSEED": os.environ.get("VERIF_HASHSEED", "0"), "OMP_NUM_THREADS": "1", "OPENBLAS_NUM_THREADS": "1", "MKL_NUM_THREADS": "1"}
     if any(os.environ.get(k) != v for k, v in want.items()):
         envd = dict(os.environ)
         envd.update(want)
